@@ -121,7 +121,9 @@ ESCAPED_SPELLINGS = [(r'[a-\z-9]', '[a-z-9]'), (r'[\a-\c-\e]', '[a-c-e]'), (r'[!
                      (r'[a-\c-]', '[a-c-]'), (r'[a-\cx-\z-]', '[a-cx-z-]'), (r'[a-\z-9]*', '[a-z-9]*'), (r'[\!a]', '[a!]'), (r'[a\]b]', '[]ab]'),
                      # `[:name:]` with a name that is not one of the fourteen POSIX classes is ordinary bracket text: the bracket ends at the first `]`
                      ('[[:foo:]]', '[[:fo]]'), ('[![:foo:]]', '[![:fo]]'), ('[a[:foo:]b]', '[a[:fo]b]'), ('[[:ALPHA:]]', '[[:ALPH]]'), ('[[:alphas:]]', '[[:alphs]]'),
-                     ('x[[:fo:]]*', 'x[[:fo]]*'), ('@([[:foo:]]|q)', '@([[:fo]]|q)')]
+                     ('x[[:fo:]]*', 'x[[:fo]]*'), ('@([[:foo:]]|q)', '@([[:fo]]|q)'),
+                     # a hyphen as the END of a range (`+--`), then a literal hyphen, then further members: nothing after it is swallowed
+                     ('[+---*]', '[+,*-]'), ('[+---*z]', '[+,*z-]'), ('x[+---*]y', 'x[+,*-]y'), ('[!+---*]', '[!+,*-]'), ('[0-9---*]', '[0-9*-]')]
 
 
 def escaped_spelling_lemmas(chk):
